@@ -117,7 +117,27 @@ func (x *executor) runOps(task int, ops []Op) {
 		if op.PanicAt > 0 && panicOK(op.Kind) {
 			simrt.ArmPanic(op.PanicAt)
 		}
+		if in.retired {
+			continue
+		}
 		if op.Kind == "build" {
+			if b := x.w.Objects[op.Obj].Buf; b > 0 {
+				// the caller reuses its buffer: whoever had its text there is finished
+				// (an error value may read its file's bytes when asked for its line, so
+				// nothing of the old object is looked at again)
+				for o := range x.w.Objects {
+					if o != op.Obj && x.w.Objects[o].Buf == b && x.insts[o].built {
+						x.insts[o].retired = true
+						for t := range x.ts {
+							for j := range x.ts[t].held {
+								if x.ts[t].held[j].obj == o {
+									x.ts[t].held[j].live = nil
+								}
+							}
+						}
+					}
+				}
+			}
 			key = "build"
 			out = func() (o outcome) {
 				defer func() {
